@@ -52,6 +52,8 @@ CONSTANTS Names,       \* identifiers used by name events, e.g. {"a","b"}
           Roles,       \* roles of a def directly in a class: subset of {"plain", "init", "call"}
                        \*   ("init" / "call": the def is `__init__` / `__call__`; the class is then
                        \*    instantiated, and the instance called, instead of calling the def)
+          Decos,       \* decorators a def may carry: subset of {"none", "property", "other"}
+                       \*   (a decorated def still binds its name in the enclosing block)
           LibNames,    \* names the second module may have: "lb", and members of Names
                        \*   (a module named like a top-level name it defines)
           ModFresh,    \* fresh module names: targets of RenameModule
@@ -93,12 +95,18 @@ LibRefOps   == {"fromlib", "fromlibas", "modattr", "asattr"}
 SibOps      == {"sibdef", "sibuse"}
 SibRefOps   == {"fromsibas"}
 IsSibTok(e) == e[2] \in SibOps \cup SibRefOps
+\* Attribute references through an instance of a class (written right after the class):
+\*   instattr    `C().n`        n is the class attribute n of C
+\*   helperattr  `h(C()).n`     the same, the instance having passed through a helper
+\*                              function `def h(obj): item = obj; return item`
+\* The event's scope is the class C; the token denotes C's class-level binding of n.
+AttrOps == {"instattr", "helperattr"}
 \* operations allowed in a scope of the given kind
 OpsOf(kind) ==
   CASE kind = "module"   -> StmtBindOps \cup {"use", "fuse"} \cup Decoys \cup LibRefOps \cup SibRefOps
     [] kind = "function" -> StmtBindOps \cup ParamOps \cup DeclOps \cup LibRefOps \cup SibRefOps
                               \cup {"use", "fuse", "defuse", "kwcall"} \cup Decoys
-    [] kind = "class"    -> StmtBindOps \cup DeclOps \cup {"use", "fuse"} \cup Decoys
+    [] kind = "class"    -> StmtBindOps \cup DeclOps \cup {"use", "fuse"} \cup Decoys \cup AttrOps
     [] kind = "comp"     -> {"for", "use", "walrus", "iteruse"}
     [] kind = "lambda"   -> ParamOps \cup {"use", "walrus", "defuse"}
     [] OTHER             -> {}
@@ -196,6 +204,7 @@ BScope(P, e) ==
     [] op \in {"iteruse", "defuse"}    -> Resolve(P, Parent(P, s), n)
     [] op = "walrus" /\ IsComp(P, s)   -> Resolve(P, Hoist(P, s), n)
     [] op = "kwcall"                   -> s
+    [] op \in AttrOps                  -> IF Local(P, s, n) THEN s ELSE 0
     [] OTHER                           -> Resolve(P, s, n)
 
 \* Class bodies look names up dynamically (LOAD_NAME: class namespace, then
@@ -286,6 +295,8 @@ WellFormed(P) ==
             /\ Has(P, s, "kwcall", n) => /\ (Has(P, s, "param", n) \/ Has(P, s, "kwonly", n))
                                          /\ UniqueDef(P, s)
             \* annotated name without value: not with global/nonlocal
+            \* attribute references are written for unnamed classes only (`C2().n`)
+            /\ (\E op \in AttrOps : Has(P, s, op, n)) => (Kind(P, s) = "class" /\ SName(P, s) = NoName)
             /\ Has(P, s, "annbind", n) => (~GlobalDecl(P, s, n) /\ ~NonlocalDecl(P, s, n))
             /\ (Has(P, s, "walrus", n) /\ IsComp(P, s)) =>
                  /\ Kind(P, Hoist(P, s)) # "class"
@@ -317,7 +328,8 @@ WellFormed(P) ==
 (* building programs *)
 Init ==
   /\ \E b \in Blocks :
-       scopes = << [kind |-> "module", parent |-> 0, name |-> NoName, one |-> FALSE, blk |-> b, role |-> "plain"] >>
+       scopes = << [kind |-> "module", parent |-> 0, name |-> NoName, one |-> FALSE, blk |-> b, role |-> "plain",
+                    deco |-> "none"] >>
   /\ ev = {}
   /\ lib \in Libs
   /\ libname \in (IF lib = "none" THEN {"lb"} ELSE LibNames)
@@ -331,7 +343,7 @@ Init ==
 \* expressions and nest anywhere.
 \* A one-line def / class holds simple statements only: no nested scopes, and (see
 \* AddEvent) only plain assignments besides the parameters.
-AddScope(kind, par, name, one, blk, role) ==
+AddScope(kind, par, name, one, blk, role, deco) ==
   /\ phase = "build"
   /\ Len(scopes) < MaxScopes
   /\ kind \in Kinds
@@ -339,6 +351,8 @@ AddScope(kind, par, name, one, blk, role) ==
   /\ ~scopes[par].one
   /\ one \in OneLiners
   /\ one => kind \in {"function", "class"}
+  /\ deco \in Decos
+  /\ (deco # "none") => (kind = "function" /\ ~one /\ role = "plain")
   /\ blk \in Blocks
   /\ (blk # "none") => (kind \in {"function", "class"} /\ ~one)
   /\ role \in (IF kind = "function" THEN Roles ELSE {"plain"})
@@ -351,7 +365,8 @@ AddScope(kind, par, name, one, blk, role) ==
        THEN /\ scopes[par].kind \in {"module", "function", "class"}
             /\ name \in ScopeNames \cup {NoName}
        ELSE name = NoName
-  /\ scopes' = Append(scopes, [kind |-> kind, parent |-> par, name |-> name, one |-> one, blk |-> blk, role |-> role])
+  /\ scopes' = Append(scopes, [kind |-> kind, parent |-> par, name |-> name, one |-> one, blk |-> blk, role |-> role,
+                            deco |-> deco])
   /\ UNCHANGED <<ev, lib, libname, phase, ren, pre>>
 
 AddEvent(s, op, n) ==
@@ -468,8 +483,8 @@ RenameModule(new) ==
   /\ UNCHANGED <<scopes, ev, lib>>
 
 AnyAddScope == \E k \in Kinds, p \in 1..Len(scopes), nm \in ScopeNames \cup {NoName}, one \in OneLiners,
-                    b \in Blocks, ro \in Roles \cup {"plain"} :
-                 AddScope(k, p, nm, one, b, ro)
+                    b \in Blocks, ro \in Roles \cup {"plain"}, d \in Decos :
+                 AddScope(k, p, nm, one, b, ro, d)
 AnyAddEvent == \E s \in 1..Len(scopes), op \in Ops, n \in Names : AddEvent(s, op, n)
 AnyAddLibEvent == \E op \in Ops, n \in Names : AddLibEvent(op, n)
 AnyRename   == \E r \in 1..Len(scopes), n \in Names, new \in AllNames : Rename(r, n, new)
